@@ -6,132 +6,7 @@ From V Require Import lib.Bytes spec.RenderSpec spec.RenderDestSpec model.Bufio 
                       proofs.BufioProof proofs.RenderSkelProof.
 Local Open Scope nat_scope.
 
-(* ---------- any property of the destination that every call on it preserves is preserved by a whole render ---------- *)
-Section Preserve.
-Variable sink_st : Type.
-Variable sink : sink_st -> bytes -> nat * option err * sink_st.
-Variable cap : nat.
-Variable sw : bool.
-Variable flusher : bool.
-Variable esc : bytes -> bytes.
-Variable env : list nat -> N -> bytes * option N.
-Variable benv : list nat -> N -> bool.
-Variable senv : list nat -> N -> nat.
-Variable cnt : list nat -> N -> nat.
-Variable cancel : option N.
-
-Notation worldT := (world sink_st).
-Notation rstateT := (rstate sink_st).
-Notation runT := (run sink_st sink cap sw flusher esc env benv senv cnt cancel).
-Notation seq_rT := (seq_r sink_st).
-
-Variable P : worldT -> Prop.
-Hypothesis P_call : forall w direct p, P w -> P (snd (sink_call sink_st sink direct w p)).
-Hypothesis P_mark : forall w k, P w -> P {| sst := sst w; recv := recv w; log := log w; marks := marks w ++ [k] |}.
-Hypothesis P_spin : forall w, P w -> P {| sst := sst w; recv := recv w; log := log w ++ [LSpin]; marks := marks w |}.
-
-Lemma flush_pres b w b' w' : P w -> bw_flush sink_st sink b w = (b', w') -> P w'.
-Proof.
-  intros Pw H. unfold bw_flush in H.
-  destruct (berr b); [inversion H; subst; exact Pw|].
-  destruct (buf b) eqn:Bb; [inversion H; subst; exact Pw|]. rewrite <- Bb in H.
-  pose proof (P_call w false (buf b) Pw) as P1.
-  destruct (sink_call sink_st sink false w (buf b)) as [[n e] w1]. cbn [snd] in P1.
-  destruct (match e with Some x => Some x | None => if n <? length (buf b) then Some EShortWrite else None end);
-    inversion H; subst; exact P1.
-Qed.
-
-Lemma write_pres direct fuel : forall b w s b' w',
-  P w -> bw_write sink_st sink cap direct fuel b w s = (b', w') -> P w'.
-Proof.
-  induction fuel as [|f IH]; intros b w s b' w' Pw H; cbn [bw_write] in H.
-  - destruct (berr b); [inversion H; subst; exact Pw|].
-    destruct (length s <=? cap - length (buf b)); inversion H; subst; [exact Pw|apply P_spin; exact Pw].
-  - destruct (berr b); [inversion H; subst; exact Pw|].
-    destruct (length s <=? cap - length (buf b)); [inversion H; subst; exact Pw|].
-    destruct (direct && is_nil (buf b)).
-    + pose proof (P_call w true s Pw) as P1.
-      destruct (sink_call sink_st sink true w s) as [[n e] w1]. cbn [snd] in P1.
-      eapply IH; [exact P1|exact H].
-    + destruct (bw_flush sink_st sink {| buf := buf b ++ firstn (cap - length (buf b)) s; berr := None |} w) as [b1 w1] eqn:F.
-      eapply IH; [|exact H]. eapply flush_pres; [exact Pw|exact F].
-Qed.
-
-Definition RP (st : rstateT) : Prop := P (rw st).
-
-Lemma do_write_pres direct st s st' e : RP st -> do_write sink_st sink cap direct st s = (st', e) -> RP st'.
-Proof.
-  unfold RP, do_write. intros Pw H.
-  destruct (bw_write sink_st sink cap direct (length s + 2) (rb st) (rw st) s) as [b w] eqn:W.
-  inversion H; subst. cbn [rw]. eapply write_pres; eassumption.
-Qed.
-
-Lemma buffer_flush_pres st st' e : RP st -> buffer_flush sink_st sink flusher st = (st', e) -> RP st'.
-Proof.
-  unfold RP, buffer_flush. intros Pw H.
-  destruct (bw_flush sink_st sink (rb st) (rw st)) as [b w] eqn:F.
-  pose proof (flush_pres _ _ _ _ Pw F) as P1.
-  destruct (berr b); inversion H; subst; cbn [rw]; [exact P1|].
-  destruct flusher; [apply P_mark; exact P1|exact P1].
-Qed.
-
-Lemma seq_pres {A} (f : A -> rstateT -> rstateT * option err) (l : list A) :
-  Forall (fun x => forall st st' e, RP st -> f x st = (st', e) -> RP st') l ->
-  forall st st' e, RP st -> seq_rT A f l st = (st', e) -> RP st'.
-Proof.
-  induction 1 as [|x r Hx Hr IH]; intros st st' e Pw H; cbn [seq_r] in H.
-  - inversion H; subst. exact Pw.
-  - destruct (f x st) as [st1 e1] eqn:F. pose proof (Hx _ _ _ Pw F) as P1.
-    destruct e1; [inversion H; subst; exact P1|]. eapply IH; eassumption.
-Qed.
-
-Lemma run_pres : forall n path st st' e, RP st -> runT n path st = (st', e) -> RP st'.
-Proof.
-  induction n as [s|id f l c|g body IHb|cs IHb|ch IHb|h e0|ops| |c thn els IHt IHe|id body IHb] using node_ind';
-    intros path st st' e Pw H; cbn [run] in H.
-  - eapply do_write_pres; eassumption.
-  - destruct (env path id) as [v [x|]]; [inversion H; subst; exact Pw|eapply do_write_pres; eassumption].
-  - pose proof (good_at (fun x p => forall st st' e, RP st -> runT x p st = (st', e) -> RP st') body path IHb) as Gb.
-    destruct g; [destruct cancel|]; [inversion H; subst; exact Pw| |]; eapply (seq_pres _ body Gb); eassumption.
-  - pose proof (good_at (fun x p => forall st st' e, RP st -> runT x p st = (st', e) -> RP st') cs path IHb) as Gb.
-    eapply (seq_pres _ cs Gb); eassumption.
-  - pose proof (good_at (fun x p => forall st st' e, RP st -> runT x p st = (st', e) -> RP st') ch path IHb) as Gb.
-    destruct (seq_rT node (fun x => runT x path) ch st) as [st1 e1] eqn:S.
-    pose proof (seq_pres _ ch Gb _ _ _ Pw S) as P1.
-    destruct e1; [inversion H; subst; exact P1|]. eapply buffer_flush_pres; eassumption.
-  - destruct e0; [inversion H; subst; exact Pw|eapply do_write_pres; eassumption].
-  - eapply (seq_pres _ ops); [|exact Pw|exact H]. apply Forall_forall. intros o _ s1 s2 e1 P1 H1.
-    destruct o; cbn [run_op] in H1; [eapply do_write_pres; eassumption|eapply do_write_pres; eassumption|inversion H1; subst; exact P1].
-  - inversion H; subst. exact Pw.
-  - pose proof (good_at (fun x p => forall st st' e, RP st -> runT x p st = (st', e) -> RP st') thn path IHt) as Gt.
-    pose proof (good_at (fun x p => forall st st' e, RP st -> runT x p st = (st', e) -> RP st') els path IHe) as Ge.
-    destruct (test benv senv path c); [eapply (seq_pres _ thn Gt)|eapply (seq_pres _ els Ge)]; eassumption.
-  - eapply (seq_pres (fun k => seq_rT node (fun x => runT x (k :: path)) body) (seq 0 (cnt path id))); [|exact Pw|exact H].
-    apply Forall_forall. intros k _ s1 s2 e1 P1 H1.
-    eapply (seq_pres _ body); [|exact P1|exact H1].
-    apply (good_at (fun x p => forall st st' e, RP st -> runT x p st = (st', e) -> RP st') body (k :: path) IHb).
-Qed.
-
-Theorem render_top_pres reset pool choice g body (w0 : worldT) res w' pool' :
-  P w0 -> render_top sink_st sink cap sw flusher esc env benv senv cnt cancel reset pool choice g body w0 = (res, w', pool') -> P w'.
-Proof.
-  intros Pw H. unfold render_top in H. destruct (if g then cancel else None).
-  - inversion H; subst. exact Pw.
-  - destruct (acquire pool choice) as [b0 pool1].
-    destruct (seq_rT node (fun x => runT x []) body {| rb := if reset then bw_reset b0 else b0; rw := w0 |}) as [st1 e] eqn:S.
-    destruct (buffer_flush sink_st sink flusher st1) as [st2 fe] eqn:F. inversion H; subst.
-    assert (P1 : RP st1).
-    { eapply (seq_pres _ body); [| |exact S]; [|exact Pw]. apply Forall_forall. intros n _ s1 s2 e1. apply run_pres. }
-    exact (buffer_flush_pres _ _ _ P1 F).
-Qed.
-End Preserve.
-
 (* ---------- the caller's bufio.Writer as a destination ---------- *)
-Lemma prefix_length (a b : bytes) : prefix a b -> length a <= length b.
-Proof. intros [t ->]. rewrite app_length. lia. Qed.
-Lemma prefix_firstn (a b : bytes) : prefix a b -> firstn (length a) b = a.
-Proof. intros [t ->]. rewrite firstn_app, Nat.sub_diag, firstn_all. cbn. apply app_nil_r. Qed.
-
 Section WrapP.
 Variable inner_st : Type.
 Variable inner : inner_st -> bytes -> nat * option err * inner_st.
@@ -144,67 +19,11 @@ Notation iwrite := (bw_write inner_st inner size).
 Notation wstep := (wrap_step inner_st inner size).
 Notation InvI := (Inv inner_st size).
 
-Lemma write_sticky direct fuel b w s x : berr b = Some x -> iwrite direct fuel b w s = (b, w).
-Proof. intros H. destruct fuel; cbn [bw_write]; rewrite H; reflexivity. Qed.
-
-(* a flush moves bytes from the buffer to the writer behind it, and loses none *)
-Lemma flush_conserve b w b' w' : iflush b w = (b', w') -> recv w' ++ buf b' = recv w ++ buf b.
-Proof.
-  intros H. unfold bw_flush in H.
-  destruct (berr b); [inversion H; subst; reflexivity|].
-  destruct (buf b) eqn:Bb; [inversion H; subst; rewrite Bb; reflexivity|]. rewrite <- Bb in *.
-  unfold sink_call in H. destruct (inner (sst w) (buf b)) as [[n e] s'].
-  destruct e as [x|].
-  - inversion H; subst. cbn [recv buf]. rewrite <- app_assoc, firstn_skipn. reflexivity.
-  - destruct (n <? length (buf b)) eqn:Lt.
-    + inversion H; subst. cbn [recv buf]. rewrite <- app_assoc, firstn_skipn. reflexivity.
-    + apply Nat.ltb_ge in Lt. inversion H; subst. cbn [recv buf]. rewrite firstn_all2 by exact Lt. apply app_nil_r.
-Qed.
-
-Lemma flush_err_sticky b w b' w' : iflush b w = (b', w') -> berr b' = None -> berr b = None.
-Proof.
-  intros H E. destruct (berr b) eqn:Eb; [|reflexivity].
-  unfold bw_flush in H. rewrite Eb in H. inversion H; subst. congruence.
-Qed.
-
-(* a write consumes a prefix t of what it is offered - all of it unless an error is recorded - and t ends up
-   behind the writer or in its buffer *)
-Lemma write_conserve direct fuel : forall b w s b' w', iwrite direct fuel b w s = (b', w') ->
-  exists t, recv w' ++ buf b' = recv w ++ buf b ++ t /\ prefix t s /\ (berr b' = None -> t = s).
-Proof.
-  induction fuel as [|f IH]; intros b w s b' w' H; cbn [bw_write] in H.
-  - destruct (berr b) eqn:Eb.
-    + inversion H; subst. exists []. rewrite app_nil_r. split; [reflexivity|]. split; [apply prefix_nil|congruence].
-    + destruct (length s <=? size - length (buf b)); inversion H; subst; cbn [recv buf berr].
-      * exists s. split; [reflexivity|]. split; [apply prefix_refl|reflexivity].
-      * exists []. rewrite app_nil_r. split; [reflexivity|]. split; [apply prefix_nil|discriminate].
-  - destruct (berr b) eqn:Eb.
-    + inversion H; subst. exists []. rewrite app_nil_r. split; [reflexivity|]. split; [apply prefix_nil|congruence].
-    + destruct (length s <=? size - length (buf b)).
-      * inversion H; subst; cbn [recv buf berr]. exists s. split; [reflexivity|]. split; [apply prefix_refl|reflexivity].
-      * destruct (direct && is_nil (buf b)) eqn:D.
-        -- apply andb_prop in D as [_ Nil]. destruct (buf b) eqn:Bb; [|discriminate].
-           unfold sink_call in H. destruct (inner (sst w) s) as [[n e] s'].
-           destruct (IH _ _ _ _ _ H) as [t2 [E2 [P2 F2]]]. cbn [recv buf] in E2.
-           exists (firstn n s ++ t2). split; [|split].
-           ++ rewrite E2. cbn [app]. rewrite <- app_assoc. reflexivity.
-           ++ rewrite <- (firstn_skipn n s) at 2. apply prefix_app_l. exact P2.
-           ++ intros En. rewrite (F2 En). apply firstn_skipn.
-        -- set (n := size - length (buf b)) in *.
-           destruct (iflush {| buf := buf b ++ firstn n s; berr := None |} w) as [b1 w1] eqn:F.
-           pose proof (flush_conserve _ _ _ _ F) as C1. cbn [buf] in C1.
-           destruct (IH _ _ _ _ _ H) as [t2 [E2 [P2 F2]]].
-           exists (firstn n s ++ t2). split; [|split].
-           ++ rewrite E2, app_assoc, C1. rewrite <- !app_assoc. reflexivity.
-           ++ rewrite <- (firstn_skipn n s) at 2. apply prefix_app_l. exact P2.
-           ++ intros En. rewrite (F2 En). apply firstn_skipn.
-Qed.
-
 Lemma wrap_count (s : wst) p b' w' : iwrite true (length p + 2) (fst s) (snd s) p = (b', w') ->
   exists t, fst (fst (wstep s p)) = length t /\ prefix t p /\ (berr b' = None -> t = p) /\
             recv w' ++ buf b' = (recv (snd s) ++ buf (fst s)) ++ t.
 Proof.
-  intros W. destruct (write_conserve _ _ _ _ _ _ _ W) as [t [E [Pt Ft]]].
+  intros W. destruct (write_conserve inner_st inner size _ _ _ _ _ _ _ W) as [t [E [Pt Ft]]].
   exists t. unfold wrap_step. rewrite W. cbn [fst]. split; [|split; [exact Pt|split; [exact Ft|]]].
   - assert (L : length (recv w') + length (buf b') = length (recv (snd s)) + length (buf (fst s)) + length t).
     { rewrite <- !app_length, E, !app_length. lia. }
@@ -274,7 +93,7 @@ Proof.
     { intros Hin. apply Ns. cbn [log]. apply in_or_app. left. exact Hin. }
     rewrite first_refusal_app, (Fr N0), <- He.
     destruct (berr (fst (sst w))) as [x|] eqn:Eb.
-    + rewrite (write_sticky _ _ _ _ _ _ Eb) in W. inversion W; subst. exact He.
+    + rewrite (write_sticky inner_st inner size _ _ _ _ _ _ Eb) in W. inversion W; subst. exact He.
     + rewrite <- He'. destruct (berr b') as [y|] eqn:Eb'; [destruct direct; reflexivity|].
       rewrite (Ft eq_refl). cbn [refusal]. destruct direct; [reflexivity|]. rewrite Nat.ltb_irrefl. reflexivity.
 Qed.
@@ -290,16 +109,6 @@ Qed.
 
 Lemma link0 s0 : Link (wrap_world0 inner_st s0).
 Proof. unfold Link, wrap_world0. cbn. repeat split; lia. Qed.
-
-Lemma iflush_log b w b' w' : iflush b w = (b', w') -> exists l2, log w' = log w ++ l2.
-Proof.
-  intros H. unfold bw_flush in H.
-  destruct (berr b); [inversion H; subst; exists []; symmetry; apply app_nil_r|].
-  destruct (buf b) eqn:Bb; [inversion H; subst; exists []; symmetry; apply app_nil_r|]. rewrite <- Bb in *.
-  unfold sink_call in H. destruct (inner (sst w) (buf b)) as [[n e] s'].
-  destruct (match e with Some x => Some x | None => if n <? length (buf b) then Some EShortWrite else None end);
-    inversion H; subst; cbn [log]; eexists; reflexivity.
-Qed.
 
 Section WrapRender.
 Variable cap : nat.
@@ -317,22 +126,22 @@ Notation denoteT := (denote esc env benv senv cnt cancel).
    it starts exactly like this one *)
 Theorem wrapped_spec pool choice g body (s0 : inner_st) :
   let o := render_wrapped inner_st inner size cap esc env benv senv cnt cancel pool choice g body s0 in
-  spec_wrap_ok (fst (denoteT (Templ g body) [])) (snd (denoteT (Templ g body) []))
+  spec_wrap_ok (fst (denoteT (Templ g body) [])) (snd (denoteT (Templ g body) [])) (host_errs (Templ g body))
                (wo_res o) (wo_fres o) (wo_got o) (wo_log1 o) (wo_log2 o) 0 /\
   wo_marks o = [] /\ wo_after o = bw_fresh.
 Proof.
   unfold render_wrapped.
   destruct (render_top wst wstep cap true false esc env benv senv cnt cancel true pool choice g body (wrap_world0 inner_st s0))
     as [[res w'] pool'] eqn:R.
-  pose proof (render_top_spec wst wstep cap true false esc env benv senv cnt cancel wrap_le pool choice g body (wrap_world0 inner_st s0) res w' pool' eq_refl eq_refl R) as SP.
-  pose proof (render_top_no_spin wst wstep cap true false esc env benv senv cnt cancel wrap_le wrap_progresses cap_pos
+  pose proof (render_top_spec wst wstep cap true false esc env benv senv cnt cancel wrap_le cap_pos pool choice g body (wrap_world0 inner_st s0) res w' pool' eq_refl eq_refl R) as SP.
+  pose proof (render_top_no_spin cap esc env benv senv cnt cancel cap_pos wst wstep true false wrap_le wrap_progresses
                 pool choice g body (wrap_world0 inner_st s0) res w' pool' eq_refl R) as NS.
-  pose proof (render_top_pres wst wstep cap true false esc env benv senv cnt cancel Link link_call link_mark link_spin
+  pose proof (render_top_pres cap esc env benv senv cnt cancel wst wstep true false Link link_call link_mark link_spin
                 _ _ _ _ _ _ _ _ _ (link0 s0) R) as L.
   pose proof (link_inv _ L) as I. destruct L as [Rw [Hl [He [Mk Fr]]]]. specialize (Fr NS).
   destruct (iflush (fst (sst w')) (snd (sst w'))) as [wb2 iw2] eqn:F. cbn [wo_res wo_fres wo_got wo_log1 wo_log2 wo_marks wo_after].
   pose proof (flush_inv inner_st inner size inner_le _ _ _ _ _ I F) as I2.
-  destruct (iflush_log _ _ _ _ F) as [l2 Hl2].
+  destruct (flush_log inner_st inner _ _ _ _ F) as [l2 Hl2].
   assert (S2 : skipn (length (log (snd (sst w')))) (log iw2) = l2).
   { rewrite Hl2, skipn_app, Nat.sub_diag, skipn_all. reflexivity. }
   rewrite S2.
